@@ -3,14 +3,17 @@
 (* the environment variable TIER (quick | thorough) and prints                                       *)
 (*    UNIVERSE {json}   once: the concretisation universe the harness must spell into the templates   *)
 (*    CASE {json}       per expression: expr (text), depth, shape, ux/uy/uv (opaque names occurring)  *)
-(* The cases are walked as W stride chains (one initial state each) so that the workers share them.  *)
-EXTENDS Evaluator, SequencesExt, IOUtils, TLC, LuaStr
+(* The cases 1..Total are walked as W stride chains (one initial state each) so that the workers      *)
+(* share them; a case is decoded from its number (Evaluator!CaseAt), no large set is ever built.      *)
+EXTENDS Evaluator, IOUtils, TLC, LuaStr
 Tier == IF "TIER" \in DOMAIN IOEnv THEN IOEnv.TIER ELSE "quick"
 W == 16
-Cases == SetToSeq(AllCases(Tier))
-N == Len(Cases)
+Fams == Families(Tier)
+Off == Offsets(Fams)
+N == Total(Fams)
 VARIABLE i
-Emit(k) == EmitLine("CASE " \o JsonOf(Cases[k]))
+Case(k) == CaseAt(Fams, Off, k)
+Emit(k) == EmitLine("CASE " \o JsonOf(Case(k)))
 Header == EmitLine("UNIVERSE " \o JsonOf([values |-> Universe, vararg |-> VarargText, choices |-> Len(VarargChoice), n |-> N, tier |-> Tier]))
 Init == /\ i \in 1..W
         /\ i = 1 => Header
@@ -19,5 +22,5 @@ Next == /\ i + W <= N
         /\ i' = i + W
         /\ Emit(i + W)
 \* every case is a well-formed request: non-empty text, flags in 0..1, depth in 0..3
-TypeOk == i <= N => LET c == Cases[i] IN c.expr # "" /\ c.depth \in 0..3 /\ {c.ux, c.uy, c.uv} \subseteq {0, 1}
+TypeOk == i <= N => LET c == Case(i) IN c.expr # "" /\ c.depth \in 0..3 /\ {c.ux, c.uy, c.uv} \subseteq {0, 1}
 =============================================================================
